@@ -237,10 +237,13 @@ int main(void) {
                     static char big[1 << 22];
                     cur_op = "Json(measure)"; int n = e->json(sb.p, big);
                     struct blk jb = blk_alloc((size_t)n + 1, low);
+                    /* the target buffer is dirty (a reused buffer): the text must still end where the function says it ends */
+                    memset(jb.p, '#', (size_t)n + 1);
                     cur_op = "Json"; int n2 = e->json(sb.p, (char *)jb.p); cur_op = "?";
                     int c1 = blk_check(&jb), c2 = blk_check(&sb);
                     if (c1 || c2) printf("CANARY json=%d struct=%d ", c1, c2); else printf("OK ");
-                    printf("%d %d ", n, n2); puthex(jb.p, (size_t)(n2 > 0 ? n2 : 0)); printf("\n");
+                    printf("%d %d ", n, n2); puthex(jb.p, (size_t)(n2 > 0 ? n2 : 0));
+                    printf(" t=%d\n", (n2 >= 0 && n2 <= n) ? (int)(jb.p[n2] == 0) : -1);
                     blk_free(&jb);
                 }
             }
